@@ -7,6 +7,7 @@ import (
 	utils "github.com/acekingke/yaccgo/Utils"
 
 	"verif/harness/render"
+	"verif/harness/spec"
 	"verif/harness/yx"
 )
 
@@ -22,10 +23,11 @@ func (c05in) matrixCases(tier string) int {
 }
 func (c05in) grammarCases(tier string) int {
 	if tier == "thorough" {
-		return len(families) + 60000
+		return len(families) + 120000
 	}
 	return len(families) + 3000
 }
+func (c05in) Extra(tier string) map[string]interface{} { return tinyExtra(tier) }
 
 func packRoundTrip(m [][]int) (msg string) {
 	defer func() {
@@ -186,6 +188,10 @@ func (p c05in) runGrammar(r *rand.Rand, idx int) (o Outcome) {
 		cfg = bigCfg
 	}
 	g := pickGrammar(r, idx, true, cfg)
+	return p.runGrammarOn(g, idx)
+}
+
+func (p c05in) runGrammarOn(g *spec.Grammar, idx int) (o Outcome) {
 	g.NoAction = true
 	text := render.Render(g, plainParts, render.Options{})
 	o = Outcome{Status: "held", Replay: map[string]interface{}{"grammar": text}}
@@ -241,7 +247,9 @@ func (p c05in) runGrammar(r *rand.Rand, idx int) (o Outcome) {
 func init() { register(c05in{}) }
 
 func (c05in) ID() string                 { return "C05" }
-func (p c05in) NumCases(tier string) int { return p.matrixCases(tier) + p.grammarCases(tier) }
+func (p c05in) NumCases(tier string) int {
+	return p.matrixCases(tier) + p.grammarCases(tier) + tinyCases(tier)
+}
 func (c05in) Rule() string {
 	return "three legs. (1) matrices: unpack(pack(m)) == m for every matrix with <=3x3 cells over {0,1,2} and <=2x5 over {0,1} (exhaustive), plus batches of 1000 random matrices up to 8x10 with density 5-90% and negative/large entries; (2) grammars built in-process: for every (state, symbol) the documented lookup through ActionTable/OffsetTable/CheckTable/ActionDef/GoToDef equals GTable[state][symbol]; (3) generated code (pipeline leg, see counters gen:*): packed and -u parsers of the same grammar have identical effective tables and identical verdict/reductions/value on every input; non-trivial = matrix batch, packed grammar with >= 4 states, or grammar whose two generated parsers were both run; distinct by matrix batch / grammar text"
 }
@@ -255,5 +263,8 @@ func (p c05in) Run(seed int64, tier string, idx int) Outcome {
 	if idx < p.matrixCases(tier) {
 		return p.runMatrix(r, idx)
 	}
-	return p.runGrammar(r, idx-p.matrixCases(tier))
+	if k := idx - p.matrixCases(tier); k < p.grammarCases(tier) {
+		return p.runGrammar(r, k)
+	}
+	return tinyBatch("C05", idx-p.matrixCases(tier)-p.grammarCases(tier), true, p.runGrammarOn)
 }
